@@ -398,3 +398,120 @@ FN('proceed', props=['C09', 'C15'], ret='r',
                 Some(RecvBodyResult::Cleanup(f)) => ready && !is_redirect_status(self.inner.status) && f.inner == self.inner && f.inner.wf_received(),
             } })''')])
 END()
+
+# ------------------------------------------------------------------------------------------------ REDIRECT
+RAW('''
+use crate::client::amended::{key_bytes, is_text};
+use crate::ext::method_needs_body as needs_body;
+/// C15, written from the statement: the method of the redirected request; None = the redirect is not followed
+pub open spec fn redirect_method(status: u16, m: Method) -> Option<Method> {
+    if status == 307 || status == 308 {
+        if needs_body(m) || m == Method::DELETE { None } else { Some(m) }
+    } else {
+        if m == Method::GET || m == Method::HEAD { Some(m) } else { Some(Method::GET) }
+    }
+}
+/// C13: may the Authorization header of the ORIGINAL request be kept for the target
+pub open spec fn may_keep_auth(policy: RedirectAuthHeaders, orig: Uri, target: Uri) -> bool {
+    policy == RedirectAuthHeaders::SameHost && orig.spec_host() == target.spec_host()
+        && (orig.spec_scheme() == target.spec_scheme() || target.spec_scheme() == Some(Scheme::https_bytes()))
+}
+/// C13/C14: names of the inherited headers suppressed on the redirected request
+pub open spec fn redirect_unset(keep_auth: bool) -> Seq<Seq<u8>> {
+    (if keep_auth { Seq::<Seq<u8>>::empty() } else { seq![lit("authorization")] }) + seq![lit("cookie"), lit("content-length"), lit("host")]
+}
+/// the target of the redirect: RFC 3986 resolution of the Location text against the CURRENT effective URI (None = error)
+pub open spec fn redirect_target(current: Uri, location: Seq<u8>) -> Option<Uri> {
+    match crate::url::spec_url_parse(current.spec_text()) {
+        None => None,
+        Some(base) => match crate::url::rfc3986_resolve(base, location) { None => None, Some(t) => parse_any::<Uri>(t) },
+    }
+}
+#[verifier::external_body]
+pub proof fn axiom_redirect_literals()
+    ensures
+        crate::http::valid_name(lower(lit("authorization"))) && lower(lit("authorization")) == lit("authorization"),
+        crate::http::valid_name(lower(lit("cookie"))) && lower(lit("cookie")) == lit("cookie"),
+        crate::http::valid_name(lower(lit("content-length"))) && lower(lit("content-length")) == lit("content-length"),
+        crate::http::valid_name(lower(lit("host"))) && lower(lit("host")) == lit("host"),
+{}
+// N9: Error::BadLocationHeader(String::from_utf8_lossy(header.as_bytes()).to_string())
+#[verifier::external_body]
+pub fn bad_location_bytes(b: &[u8]) -> (r: Error) ensures r is BadLocationHeader { unimplemented!() }
+''')
+IMPL('impl<B> Flow<B, Redirect>')
+FN('as_new_flow', props=['C13', 'C14', 'C15', 'C16', 'C09', 'C12'], ret='r',
+   requires=[('C09.wf', 'old(self).inner.wf_redirect()')],
+   ensures=[
+       ('C09.redirect_flow_stays_usable', 'final(self).inner.wf_redirect()'),
+       ('C14.location_errors', '''match old(self).inner.location {
+            None => r == Err::<Option<Flow<B, Prepare>>, Error>(Error::NoLocationHeader),
+            Some(l) => !is_text(l.view()) || redirect_target(old(self).inner.call.req().eff_uri(), l.view()) is None ==> r is Err && r->Err_0 is BadLocationHeader }'''),
+       ('C12.error_changes_nothing', 'r is Err ==> final(self).inner == old(self).inner'),
+       ('C15.method_table', '''old(self).inner.location matches Some(l) && is_text(l.view()) && redirect_target(old(self).inner.call.req().eff_uri(), l.view()) is Some ==>
+            match redirect_method(old(self).inner.status->Some_0.0, old(self).inner.call.req().request.spec_method()) {
+                None => r is Ok && r->Ok_0 is None && final(self).inner == old(self).inner,
+                Some(m) => r is Ok && r->Ok_0 is Some && r->Ok_0->Some_0.inner.call.req().request.spec_method() == m }'''),
+       ('C13/C14.next_request', '''r is Ok && r->Ok_0 is Some ==> ({
+            let next = r->Ok_0->Some_0.inner;
+            let prev = old(self).inner.call.req();
+            let target = redirect_target(prev.eff_uri(), old(self).inner.location->Some_0.view())->Some_0;
+            &&& next.wf_prepare()
+            // C13: rebuilt from the original request (same version, headers, original uri), nothing the caller added is carried over
+            &&& next.call.req().request.spec_version() == prev.request.spec_version() && next.call.req().request.spec_headers() == prev.request.spec_headers()
+            &&& next.call.req().request.spec_uri() == prev.request.spec_uri() && next.call.req().added().len() == 0
+            // C14: the target overrides the uri
+            &&& next.call.req().uri == Some(target)
+            // C13: inherited cookie / content-length / host are always suppressed, authorization unless the policy allows it for the ORIGINAL uri
+            &&& next.call.req().unset_names() == redirect_unset(may_keep_auth(redirect_auth_headers, prev.request.spec_uri(), target))
+            &&& next.reasons() == base_reasons(prev.request.spec_version(), prev.request.spec_headers().entries())
+        })'''),
+   ],
+   head='broadcast use crate::client::amended::axiom_key_val_bytes; proof { axiom_redirect_literals(); crate::client::call::axiom_literals2(); axiom_flow_literals(); }',
+   rewrites=[
+       ('N9', '''Error::BadLocationHeader(
+                    String::from_utf8_lossy(header.as_bytes()).to_string(),
+                )''', 'bad_location_bytes(header.as_bytes())'),
+       ('N16', 'matches!(*method, Method::GET | Method::HEAD)', '(method == Method::GET || method == Method::HEAD)'),
+   ],
+   )
+FN('status', props=['C15', 'C09'], ret='r',
+   requires=[('C09.wf', 'self.inner.wf_redirect()')],
+   ensures=[('C15.redirect_reports_its_status', 'Some(r) == self.inner.status && 300 <= r.0 <= 399 && r.0 != 304')])
+FN('must_close_connection', props=['C10'], ret='r',
+   ensures=[('C10.must_close_iff_a_reason', 'r == (self.inner.reasons().len() > 0)')])
+FN('close_reason', props=['C10'], ret='r',
+   ensures=[('C10.reason_given_iff_must_close', '''if self.inner.reasons().len() > 0 { r is Some && str_bytes(r->Some_0) == explain_bytes(self.inner.reasons()[0]) } else { r is None }''')],
+   rewrites=[('N9', 'self.inner.close_reason.first().map(|s| s.explain())', 'first_reason_text(&self.inner.close_reason)')])
+FN('proceed', props=['C09', 'C10'], ret='r',
+   requires=[('C09.wf', 'self.inner.wf_redirect()')],
+   ensures=[('C09.redirect_to_cleanup', 'r.inner == self.inner && r.inner.wf_received()')])
+END()
+
+FN('can_redirect_auth_header', props=['C13'], ret='r',
+   ensures=[('C13.keep_auth_iff_same_host_and_not_downgraded', 'r == (prev.spec_host() == next.spec_host() && (prev.spec_scheme() == next.spec_scheme() || next.spec_scheme() == Some(Scheme::https_bytes())))')],
+   rewrites=[
+       ('N5', 'prev.authority().map(|a| a.host())', "prev.authority().map(|a: &crate::http::uri::Authority| -> (s: &str) ensures str_bytes(s) == a.host_view() { a.host() })"),
+       ('N5', 'next.authority().map(|a| a.host())', "next.authority().map(|a: &crate::http::uri::Authority| -> (s: &str) ensures str_bytes(s) == a.host_view() { a.host() })"),
+       ('N9', 'host_prev == host_next && (scheme_prev == scheme_next || scheme_next == Some(&Scheme::HTTPS))',
+        'crate::http::uri::opt_str_eq(host_prev, host_next) && (crate::http::uri::opt_scheme_eq(scheme_prev, scheme_next) || crate::http::uri::opt_scheme_eq(scheme_next, Some(Scheme::https())))'),
+   ])
+
+RAW('''
+// N9: `close_reason.first().map(|s| s.explain())` (slice::first through Deref, Option::map with a method closure)
+pub fn first_reason_text(reasons: &ArrayVec<CloseReason, 5>) -> (r: Option<&'static str>)
+    ensures if reasons.view().len() > 0 { r is Some && str_bytes(r->Some_0) == explain_bytes(reasons.view()[0]) } else { r is None }
+{
+    let s: &[CloseReason] = &*reasons;
+    if s.len() > 0 { Some(s[0].explain()) } else { None }
+}
+''')
+
+# ------------------------------------------------------------------------------------------------ CLEANUP
+IMPL('impl<B> Flow<B, Cleanup>')
+FN('must_close_connection', props=['C10'], ret='r',
+   ensures=[('C10.must_close_iff_a_reason', 'r == (self.inner.reasons().len() > 0)')])
+FN('close_reason', props=['C10'], ret='r',
+   ensures=[('C10.reason_given_iff_must_close', '''if self.inner.reasons().len() > 0 { r is Some && str_bytes(r->Some_0) == explain_bytes(self.inner.reasons()[0]) } else { r is None }''')],
+   rewrites=[('N9', 'self.inner.close_reason.first().map(|s| s.explain())', 'first_reason_text(&self.inner.close_reason)')])
+END()
